@@ -91,6 +91,11 @@ func VerifyFunction(p *Program, name string, opt Options) FnReport {
 			rep.Err = fmt.Sprintf("bind: assert@call(%s#%d) matches no call site", ca.Callee, ca.Ord)
 			return rep
 		}
+		if !fc.usedCallAssert["cover:"+ca.Clause.Label+ca.Clause.Text] {
+			// a clause keyed on literal pieces whose key occurs at no call site says nothing
+			rep.Err = fmt.Sprintf("bind: assert@call(%s) %s is trivially true at every call site: the text it is keyed on is gone", ca.Callee, ca.Clause.Label)
+			return rep
+		}
 	}
 	semOnce.Do(func() {
 		n := opt.Parallel
